@@ -45,8 +45,13 @@ func (w *addrWorld) names() []string {
 	oc := w.other.Address().GetRoot().String()
 	return []string{"db", "DB", "db ", " db", "my database", "a/b/c", "a//b", "", ".", "..", "a.b", "a/./b", "a/../b", "../x", "x/..", "x/../..", "ünïcödé-名前", "emoji-🙂",
 		"line\nbreak", "tab\tname", "percent%20name", "q?x=1#frag", oc, oc + "/y", "/orbitdb/" + oc + "/y", "orbitdb/" + oc, "x/../../" + oc + "/y", "../" + oc, "../" + oc + "/unrelated", "x/" + oc,
-		strings.Repeat("n", 300)}
+		strings.Repeat("n", 300),
+		// rooted and doubled variants of the parent-segment names (path.Clean drops ".." at the root of a rooted path)
+		"/../" + oc + "/y", "/../../" + oc, "//../" + oc + "/y", "/./../" + oc + "/y", "/x/../../" + oc + "/y", "/a", "/a/b/", "a/", "./a", "/.."}
 }
+
+// c14NameCount is the size of the name family (the world is needed to build the names themselves).
+const c14NameCount = 41
 
 var c14Types = []string{"eventlog", "keyvalue", "docstore"}
 var c14Lists = []string{"none", "self", "A", "A,B", "B,A", "*"}
@@ -266,13 +271,13 @@ func runC14Uniqueness() (string, []explore.Violation) {
 func init() {
 	explore.Register(&explore.CheckDef{
 		ID: "C14", Level: "exploration",
-		Rule:   "full cross product: 31 names (ascii, case, spaces, nested, empty, dot and parent-directory segments, unicode, control characters, names that are or contain the manifest address of another database, 300 characters) x 3 registered types x 6 write lists (none, creator, one id, two ids in both orders, wildcard) on three peers with different identities; restricted to inputs DetermineAddress/Create accept. Oracle: same inputs give the same address on every peer; pairwise different inputs give different addresses (all pairs of the enumerated set) and never the root of an unrelated database; the printed address parses back to the same root and path; Create returns the determined address; Open on another peer yields the recorded type and the given write list; local-only open of an unknown database and Create over an existing one (also with a Directory option naming another directory) are refused, Create with overwrite succeeds; every ordered pair of 4 databases with different write lists opened through one reused options value keeps its own type and list. Non-trivial = accepted inputs other than the plain name.",
+		Rule:   "full cross product: 41 names (ascii, rooted and trailing-slash forms, case, spaces, nested, empty, dot and parent-directory segments, unicode, control characters, names that are or contain the manifest address of another database, 300 characters) x 3 registered types x 6 write lists (none, creator, one id, two ids in both orders, wildcard) on three peers with different identities; restricted to inputs DetermineAddress/Create accept. Oracle: same inputs give the same address on every peer; pairwise different inputs give different addresses (all pairs of the enumerated set) and never the root of an unrelated database; the printed address parses back to the same root and path; Create returns the determined address; Open on another peer yields the recorded type and the given write list; local-only open of an unknown database and Create over an existing one (also with a Directory option naming another directory) are refused, Create with overwrite succeeds; every ordered pair of 4 databases with different write lists opened through one reused options value keeps its own type and list. Non-trivial = accepted inputs other than the plain name.",
 		Units:  func(tier string) []explore.Unit { return explore.ChunkUnits("c14", 16) },
 		Budget: func(tier string) float64 { return 400 },
 		RunUnit: func(c *explore.Ctx) {
 			_, i, n := explore.ParseChunk(c.Spec.Unit.Arg)
 			var cases []explore.Case
-			for k := 0; k < 31; k++ {
+			for k := 0; k < c14NameCount; k++ {
 				k := k
 				cases = append(cases, explore.Case{ID: fmt.Sprintf("name#%d", k), Nontrivial: k > 0, Run: func() (string, []explore.Violation) { return runC14Name(k) }})
 			}
